@@ -15,5 +15,7 @@ MIN_OBLIGATIONS = 20
 
 
 def build(src, tier):
+    ws = K.world_for(src, tier, spied=True)
+    spied = (ws, [K.t_query_spied('is_in'), K.t_query_spied('child_state')])
     w = K.world_for(src, tier)
-    return [(w, [K.t_tree_lemmas(), K.t_is_in(), K.t_child_state(), K.t_dispatch(), K.t_trans_(), K.t_start_at()])]
+    return [(w, [K.t_tree_lemmas(), K.t_is_in(), K.t_child_state(), K.t_dispatch(), K.t_trans_(), K.t_start_at()]), spied]
